@@ -73,26 +73,24 @@ def _process_step_expression(
                 lang_graph, model, target_assets, step_expression['rhs'])
 
             new_target_assets = []
+            lh_ids = [lnode.id for lnode in lh_targets]
+            rh_ids = [rnode.id for rnode in rh_targets]
             match (step_expression['type']):
                 case 'union':
-                    new_target_assets = lh_targets
+                    new_target_assets = list(lh_targets)
                     for ag_node in rh_targets:
-                        if next((lnode for lnode in new_target_assets \
-                            if lnode.id != ag_node.id), None):
+                        if ag_node.id not in lh_ids:
                             new_target_assets.append(ag_node)
 
                 case 'intersection':
                     for ag_node in rh_targets:
-                        if next((lnode for lnode in lh_targets \
-                            if lnode.id == ag_node.id), None):
+                        if ag_node.id in lh_ids:
                             new_target_assets.append(ag_node)
 
                 case 'difference':
-                    new_target_assets = lh_targets
                     for ag_node in lh_targets:
-                        if next((rnode for rnode in rh_targets \
-                            if rnode.id != ag_node.id), None):
-                            new_target_assets.remove(ag_node)
+                        if ag_node.id not in rh_ids:
+                            new_target_assets.append(ag_node)
 
             return (new_target_assets, None)
 
